@@ -89,14 +89,16 @@ def stmts(ss):
         elif k == "for":
             v = ("var", s[1], (False, 32))
             cond = ("cmp", "<", v, s[2])
-            if len(s) > 4:
+            if len(s) > 4 and s[4]:
                 if s[4][0] == "andcmp":
                     cond = ("log", "&&", cond, s[4][1])
                 elif s[4][0] == "intand":
                     cond = ("log", "&&", s[4][1], s[4][2])
                 elif s[4][0] == "not":
                     cond = ("not", ("cmp", ">=", v, s[2]))
-            out.append(["for", Q(s[1]), ex(cond), stmts(s[3])])
+            out.append(["for", Q(s[1]), ex(cond), (s[5] if len(s) > 5 and s[5] else 0), stmts(s[3])])
+        elif k == "chain":
+            out.append(["chain", ex(s[1]), ex(s[2]), Q(s[3]), ex(s[4])])
         elif k == "jump":
             out.append(["jump", ex(s[1])])
         elif k == "raw":
